@@ -851,7 +851,17 @@ def dominators(prog, f):
     for a, ss in succ.items():
         for s in ss:
             preds[s].add(a)
-    nodes = set(f.live)
+    # only blocks reachable from the entry over the live edges take part: a live block without a live predecessor (its only
+    # in-edges were pruned) would otherwise empty the dominator sets of everything behind it
+    nodes, wl = {f.entry}, [f.entry]
+    while wl:
+        x = wl.pop()
+        for s in succ.get(x, ()):
+            if s not in nodes:
+                nodes.add(s)
+                wl.append(s)
+    for n in list(preds):
+        preds[n] = {p for p in preds[n] if p in nodes}
     dom = {n: set(nodes) for n in nodes}
     dom[f.entry] = {f.entry}
     changed = True
